@@ -190,3 +190,115 @@ pub proof fn lemma_union_disjoint(a: Map<int, bool>, sa: Set<int>, bm: Map<int, 
 {
     if sa.contains(k) { assert(!sb.contains(k)); }
 }
+
+// ---------------------------------------------------------------------------------------------------------------
+// composition of the PT template postconditions (vlib/pt.py) into the accessor contracts, for EVERY layout.
+// PT proves per template and for all parameters:  getter term i has value bit k  <=>  sl_i <= k < sl_i + n_i  and raw bit lo_i + s + (k - sl_i);
+// scatter term i has register bit k <=> lo_i <= k < lo_i + n_i and value bit sr_i + (k - lo_i);  mask term i has bit k <=> lo_i <= k < lo_i + n_i;
+// combine: result bit k = if mask bit k { new bit k } else { raw bit k }.
+// Hypothesis left to the corpus (generator glue, not under contract): the i-th term is emitted with sl_i = sr_i = total(i) and the terms are joined with `|`.
+
+pub open spec fn getter_term(raw: u128, lo: int, n: int, sl: int, s: int, k: int) -> bool {
+    sl <= k < sl + n && bit(raw, lo + s + k - sl)
+}
+
+/// the `|`-join of the first i getter terms, each shifted to its accumulated target position
+pub open spec fn getter_join(raw: u128, rs: Seq<(usize, usize)>, shift: int, i: int, k: int) -> bool
+    decreases i
+{
+    if i <= 0 { false } else {
+        getter_term(raw, rs[i - 1].0 as int, rs[i - 1].1 as int, total(rs, i - 1), shift, k) || getter_join(raw, rs, shift, i - 1, k)
+    }
+}
+
+/// C01/C04 for all layouts: joined getter terms == get_model (hence == get_spec by adequacy)
+pub proof fn lemma_getter_join(raw: u128, rs: Seq<(usize, usize)>, shift: int, i: int, k: int)
+    requires 0 <= i <= rs.len(), 0 <= k
+    ensures getter_join(raw, rs, shift, i, k) == get_model(raw, rs, shift, i, k)
+    decreases i
+{
+    if i > 0 {
+        lemma_getter_join(raw, rs, shift, i - 1, k);
+        let t = total(rs, i - 1);
+        if t <= k < t + rs[i - 1].1 {
+            lemma_get_high(raw, rs, shift, i - 1, k);
+        }
+    }
+}
+
+pub open spec fn mask_join(rs: Seq<(usize, usize)>, i: int, k: int) -> bool
+    decreases i
+{
+    if i <= 0 { false } else { (rs[i - 1].0 <= k < rs[i - 1].0 + rs[i - 1].1) || mask_join(rs, i - 1, k) }
+}
+
+pub open spec fn scatter_join(v: u128, rs: Seq<(usize, usize)>, i: int, k: int) -> bool
+    decreases i
+{
+    if i <= 0 { false } else {
+        ((rs[i - 1].0 <= k < rs[i - 1].0 + rs[i - 1].1) && bit(v, total(rs, i - 1) + k - rs[i - 1].0)) || scatter_join(v, rs, i - 1, k)
+    }
+}
+
+/// the multi-range setter: clear the joined mask, OR in the joined scatter terms (PT `combine`), both moved up by `shift`
+pub open spec fn setter_combine(raw: u128, v: u128, rs: Seq<(usize, usize)>, shift: int, i: int, k: int) -> bool {
+    if mask_join(rs, i, k - shift) { scatter_join(v, rs, i, k - shift) } else { bit(raw, k) }
+}
+
+pub proof fn lemma_mask_join_covered(rs: Seq<(usize, usize)>, shift: int, i: int, k: int)
+    requires 0 <= i <= rs.len()
+    ensures mask_join(rs, i, k - shift) == covered(rs, shift, i, k)
+    decreases i
+{
+    if i > 0 { lemma_mask_join_covered(rs, shift, i - 1, k); }
+}
+
+pub proof fn lemma_scatter_join_disjoint(v: u128, rs: Seq<(usize, usize)>, i: int, j: int, k: int)
+    requires 0 <= j < i <= rs.len(), disjoint(rs), rs[j].0 <= k < rs[j].0 + rs[j].1
+    ensures scatter_join(v, rs, i, k) == bit(v, total(rs, j) + k - rs[j].0)
+    decreases i
+{
+    if i - 1 > j {
+        assert(rs[j].0 + rs[j].1 <= rs[i - 1].0 || rs[i - 1].0 + rs[i - 1].1 <= rs[j].0);
+        lemma_scatter_join_disjoint(v, rs, i - 1, j, k);
+    } else {
+        // i - 1 == j: the term of range j itself; earlier ranges do not contain k
+        lemma_scatter_none_below(v, rs, j, j, k);
+    }
+}
+
+pub proof fn lemma_scatter_none_below(v: u128, rs: Seq<(usize, usize)>, i: int, j: int, k: int)
+    requires 0 <= i <= j < rs.len(), disjoint(rs), rs[j].0 <= k < rs[j].0 + rs[j].1
+    ensures !scatter_join(v, rs, i, k)
+    decreases i
+{
+    if i > 0 {
+        assert(rs[i - 1].0 + rs[i - 1].1 <= rs[j].0 || rs[j].0 + rs[j].1 <= rs[i - 1].0);
+        lemma_scatter_none_below(v, rs, i - 1, j, k);
+    }
+}
+
+/// witness: a covered position lies in some range j < i
+pub proof fn lemma_covered_wit(rs: Seq<(usize, usize)>, shift: int, i: int, k: int) -> (j: int)
+    requires 0 <= i <= rs.len(), covered(rs, shift, i, k)
+    ensures 0 <= j < i, rs[j].0 + shift <= k < rs[j].0 + shift + rs[j].1
+    decreases i
+{
+    if rs[i - 1].0 + shift <= k < rs[i - 1].0 + shift + rs[i - 1].1 { i - 1 } else { lemma_covered_wit(rs, shift, i - 1, k) }
+}
+
+/// C02/C04 for all layouts with pairwise disjoint ranges: the combined multi-range setter == put_model (hence == put_spec by adequacy)
+pub proof fn lemma_setter_combine(raw: u128, v: u128, rs: Seq<(usize, usize)>, shift: int, k: int)
+    requires disjoint(rs), 0 <= shift
+    ensures setter_combine(raw, v, rs, shift, rs.len() as int, k) == put_model(raw, rs, shift, v, rs.len() as int, k)
+{
+    let n = rs.len() as int;
+    lemma_mask_join_covered(rs, shift, n, k);
+    if covered(rs, shift, n, k) {
+        let j = lemma_covered_wit(rs, shift, n, k);
+        lemma_scatter_join_disjoint(v, rs, n, j, k - shift);
+        lemma_put_scatter(raw, rs, shift, v, n, j, k);
+    } else {
+        lemma_put_frame(raw, rs, shift, v, n, k);
+    }
+}
